@@ -205,7 +205,13 @@ impl Program {
                 .get(func_name.as_bytes())
                 .with_context(|| format!("Could not find symbol ({func_name})"))?;
 
+            #[cfg(mscript_verif)]
+            crate::verif::ffi_call(lib_name, func_name, args);
+
             let ffi_result = lib_fn(args);
+
+            #[cfg(mscript_verif)]
+            crate::verif::ffi_return(&ffi_result);
 
             Ok(ffi_result)
         }
@@ -233,6 +239,9 @@ impl Program {
                 log::info!("runtime @import {path}");
                 {
                     let view = self.module_cache.borrow_mut();
+
+                    #[cfg(mscript_verif)]
+                    crate::verif::module_import(path, view.contains_key(path));
 
                     if let Some(cached) = view.get(path) {
                         let module = cached.borrow();
